@@ -49,3 +49,36 @@ Proof.
 Qed.
 
 End FFEdge.
+
+(* non-vacuity of the section hypotheses: the register swap  a <<= b ; b <<= a  as two update_ff blocks.
+   variables: 0 = a, 1 = b, 2 = next(a), 3 = next(b), 4 = an unrelated register's next-value *)
+Definition swapB (i : nat) : blk nat nat :=
+  match i with
+  | 0 => mkBlk (fun v => v =? 1) (fun v => v =? 2) (fun e v => if v =? 2 then e 1 else e v)
+  | 1 => mkBlk (fun v => v =? 0) (fun v => v =? 3) (fun e v => if v =? 3 then e 0 else e v)
+  | _ => mkBlk (fun _ => false) (fun _ => false) (fun e => e)
+  end.
+
+Lemma swap_in i : In i [0; 1] -> i = 0 \/ i = 1.
+Proof. cbn. intros [H|[H|[]]]; auto. Qed.
+
+Lemma swap_nonvacuous :
+  (forall i, In i [0; 1] -> frame (swapB i)) /\
+  (forall i, In i [0; 1] -> dep (swapB i)) /\
+  single_writer swapB [0; 1] /\
+  (forall i j v, In i [0; 1] -> In j [0; 1] -> i <> j -> wr (swapB i) v = true -> rd (swapB j) v = false) /\
+  forall e, run_list swapB [0; 1] e 2 = e 1 /\ run_list swapB [0; 1] e 3 = e 0 /\
+            run_list swapB [1; 0] e 2 = e 1 /\ run_list swapB [1; 0] e 3 = e 0 /\
+            run_list swapB [1; 0] e 4 = e 4.
+Proof.
+  split; [|split; [|split; [|split]]].
+  - intros i Hi e v. destruct (swap_in i Hi) as [-> | ->]; cbn; intros W; rewrite W; reflexivity.
+  - intros i Hi e1 e2 H v. destruct (swap_in i Hi) as [-> | ->]; cbn; intros W; rewrite W.
+    + apply H. left. reflexivity.
+    + apply H. left. reflexivity.
+  - intros i j v Hi Hj Hne. destruct (swap_in i Hi) as [-> | ->], (swap_in j Hj) as [-> | ->]; cbn; try congruence;
+      intros W; apply Nat.eqb_eq in W; subst v; reflexivity.
+  - intros i j v Hi Hj Hne. destruct (swap_in i Hi) as [-> | ->], (swap_in j Hj) as [-> | ->]; cbn; try congruence;
+      intros W; apply Nat.eqb_eq in W; subst v; reflexivity.
+  - intros e. cbn. repeat split.
+Qed.
